@@ -1,5 +1,6 @@
 from excel2pycl.src.context import Context
 from excel2pycl.src.excel import Excel
+from excel2pycl.src.exceptions import E2PyclParserException
 from excel2pycl.src.tokens import IfsControlConstructionToken
 from excel2pycl.src.translators.abstract_translator import AbstractTranslator
 
@@ -9,6 +10,9 @@ class IfsControlConstructionTokenTranslator(AbstractTranslator):
     def translate(cls, token: IfsControlConstructionToken, excel: Excel, context: Context) -> str:
         from excel2pycl.src.translators.expression_token_translator import ExpressionTokenTranslator
 
+        if len(token.expressions) % 2:
+            # IFS takes pairs of a condition and a value; a condition left over at the end would never be looked at
+            raise E2PyclParserException(f'IFS in {token.in_cell} has a condition without a value')
         # every condition and every value is handed over as a function: IFS evaluates them in order and only as needed
         lazy_list = '[' + ', '.join(
             [f'lambda: {ExpressionTokenTranslator.translate(i, excel, context)}' for i in token.expressions]) + ']'
